@@ -277,10 +277,9 @@ def execute(history):
                             add(check_post(res_p, st["obj"], dat, spec, ndim, mon_p), opi)
                             snap_p = _snapshot(res_p, st["obj"])
                             obs.append([opi, "parallel", snap_p, sim.trace])
-                            if snap_p != snap_s:
-                                what = [kk for kk in snap_s if snap_s[kk] != snap_p[kk]]
-                                add({"class": "serial-parallel-differ", "detail": "fit(use_parallel=True) under pool schedule %r differs from the serial fit in %r: %r vs %r"
-                                                                                  % ([(t["W"], t["order"]) for t in sim.trace][:3], what, snap_p["clusters"], snap_s["clusters"])}, opi)
+                            # The property demands the postcondition of BOTH runs (checked above), not that they are equal: a
+                            # parallel branch that consumed the generators differently would still be correct.  Equality is recorded.
+                            bump("info:parallel_fit_equals_serial_fit" if snap_p == snap_s else "info:parallel_fit_differs_from_serial_fit")
             except sessions.OpTimeout:
                 bump("op_timeout")
                 add({"class": "hang", "detail": "%s did not return within %d s" % (kind, OP_WALL)}, opi)
